@@ -5,6 +5,7 @@ package main
 
 import (
 	"database/sql"
+	"encoding/json"
 	"database/sql/driver"
 	"fmt"
 	"reflect"
@@ -227,6 +228,16 @@ type Mixed struct {
 	No int
 }
 
+// named byte-slice types: database/sql special-cases only the unnamed []byte
+type Blob []byte
+
+type Doc struct {
+	ID   int             `db:"id"`
+	Raw  []byte          `db:"raw"`
+	Meta Blob            `db:"meta"`
+	J    json.RawMessage `db:"j"`
+}
+
 type zooEntry struct {
 	name   string
 	sample any
@@ -242,12 +253,12 @@ var zooSamples = []zooEntry{
 	{"Rec", Rec{}}, {"RecA", RecA{}}, {"M", sqlair.M{}}, {"IntMap", IntMap{}}, {"KM", KM{}}, {"BadMap", BadMap{}},
 	{"S", sqlair.S{}}, {"IntSlice", IntSlice{}}, {"StrSlice", StrSlice{}}, {"PersonSlice", PersonSlice{}},
 	{"Priced", Priced{}}, {"TaggedEmbed", TaggedEmbed{}}, {"EmbedUnexported", EmbedUnexported{}},
-	{"EmbedNonStruct", EmbedNonStruct{}}, {"Mixed", Mixed{}},
+	{"EmbedNonStruct", EmbedNonStruct{}}, {"Mixed", Mixed{}}, {"Doc", Doc{}},
 	{"zoo2.Person", zoo2.Person{}}, {"zoo2.M", zoo2.M{}}, {"zoo2.IntSlice", zoo2.IntSlice{}},
 }
 
 // good types for statement generation (Prepare succeeds with them)
-var goodStructs = []string{"Person", "Address", "Manager", "Embed", "EmbedPtr", "Deep", "Deep4", "Contact", "AutoID", "AutoID", "Omit", "PtrFields", "Quoted", "Unicode", "Numeric", "Priced", "TaggedEmbed", "EmbedUnexported", "EmbedNonStruct", "Mixed"}
+var goodStructs = []string{"Person", "Address", "Manager", "Embed", "EmbedPtr", "Deep", "Deep4", "Contact", "AutoID", "AutoID", "Omit", "PtrFields", "Quoted", "Unicode", "Numeric", "Priced", "TaggedEmbed", "EmbedUnexported", "EmbedNonStruct", "Mixed", "Doc"}
 var goodMaps = []string{"M", "IntMap", "KM"}
 var goodSlices = []string{"S", "IntSlice", "StrSlice", "PersonSlice"}
 
